@@ -275,7 +275,8 @@ func (stressFamily) Exec(id int, raw json.RawMessage) Case {
 			// the same in-flight key is resolved by several goroutines at once (duplicate acknowledgements,
 			// an acknowledgement racing the sweep that expires the entry): exactly one of them wins
 			q := ack.NewQueue()
-			for i := 0; i < R; i++ {
+			// (cheap rounds, narrow window between Ack's lookup and its delete: many of them)
+			for i := 0; i < R*40; i++ {
 				var calls, acked int64
 				mid := int32(1 + i%1000)
 				past := i%2 == 0 // the entry is already due: the sweep competes too
